@@ -126,9 +126,9 @@ var properties = map[string]*Property{
 		ID:    "C37",
 		Title: "REPL command lookup resolves unique prefixes and reports ambiguity",
 		Units: []Unit{
-			{Kind: "funcs", Pkg: "fast", Funcs: []string{"binarySearch", "prefixSearch", "removeCmd", "(Cmds).Lookup", "(Cmds).Add", "(Cmds).Del"}},
+			{Kind: "funcs", Pkg: "fast", Funcs: []string{"binarySearch", "prefixSearch", "removeCmd", "(Cmds).Lookup", "(Cmds).Add", "(Cmds).Del", "(*Interp).Cmd"}},
 		},
-		NotCovered: []string{"Interp.Cmd: an unknown ':'-prefixed input falls through to evaluation (string slicing and I/O around the lookup)",
+		NotCovered: []string{"Interp.Cmd: the exact text handed back for evaluation (string slicing around the lookup is uninterpreted: only 'non-empty, evaluation forced' is proved), the command functions themselves",
 			"the exact text of the ambiguity error (strings.Join of the candidate names is specified only as: built from the block of matching names)"},
 	},
 }
